@@ -779,7 +779,9 @@ def run(c):
         "history series end at t0 (the code's `[:-1]` convention); every variable of the decision vector has >= 2 time stamps",
         "`integrate_states = True` (single shooting) is outside the model",
     ]
-    c.prove()
+    from .translate_c15 import gen_accessors
+
+    c.prove(extra=gen_accessors(c))  # + der_at / __states_times_in / integral translated from the source
     rng = c.rng
     # corpus first
     batch = []
@@ -808,7 +810,9 @@ def run(c):
 
 
 def replay(c, rp):
-    c.prove()
+    from .translate_c15 import gen_accessors
+
+    c.prove(extra=gen_accessors(c))
     for f in (rp.get("failures", []) + rp.get("correspondence_disagreements", []))[:5]:
         print("replaying", f["what"])
     batch = [check_instance(c, spec, c.rng, 0, fixed_queries=qs, tag=tag) for tag, spec, qs in corpus()]
